@@ -2,6 +2,7 @@
 import json
 import os
 import random
+import re
 import shutil
 import subprocess
 import time
@@ -448,6 +449,37 @@ def main(tier):
                     diff = [x for x in base_rows if x not in rows][:3] + [x for x in rows if x not in base_rows][:3]
                     ck.violation("valid file %s rewritten with %s (same AST under CPython) gets different per-function results: %s" % (bname, label, diff),
                                  dict(rep, expected=base_rows[:40], got=rows[:40]))
+    # ----- the opt-in analyses and the other sub-command on valid files: `check` (incl. --select mockdata, whose heuristics scan every
+    # identifier and string for keywords) on a file that spells every mock keyword at the start, inside and at the end of longer names,
+    # repeated, overlapping, in strings, addresses and URLs
+    stats["mock_runs"] = 0
+    kws = re.findall(r'"([a-z]+)"', re.search(r"func DefaultMockDataKeywords\(\) \[\]string \{(.*?)\n\}", open(os.path.join(lib.REPO, "domain", "defaults.go")).read(), re.S).group(1)) or \
+        ["mock", "test", "temp", "foo", "bar"]
+    doms = ["example.com", "test.org", "localhost", "foo.com", "invalid", "real-shop.io"]
+    zoo = ["import os", ""]
+    n_id = 0
+    for k in kws:
+        forms = [k, k + "_x", "x_" + k, "x" + k, k + "x", "x" + k + "y", k + "_" + k, "la" + k + "_" + k + "s", "x" + k + "s_" + k + "_y", k + k, k + "x" + k,
+                 k.upper(), k.capitalize() + "Case", "la" + k + "_" + k + "_" + k + "ing", "_" + k, k + "_", k + "1" + k + "2"]
+        for f_ in forms:
+            n_id += 1
+            ident = "v%d_%s" % (n_id, f_) if not (f_[0].isalpha() or f_[0] == "_") else f_ + "_%d" % n_id
+            zoo.append("%s = \"%s and la%ss_%s_runs\"" % (ident, f_, k, k))
+        zoo.append("def fn_%s_%s(%s_arg, la%s_%ss=None):\n    %s_local = \"user@%s\"\n    return %s_arg, la%s_%ss, %s_local" % (k, k, k, k, k, k, doms[len(zoo) % len(doms)], k, k, k, k))
+    for dname in doms:
+        zoo.append("URL_%d = \"https://api.%s/v1/%s?x=%s\"\nMAIL_%d = \"john.doe@%s\"" % (len(zoo), dname, kws[0], kws[1], len(zoo), dname))
+    zoo += ["PHONE = \"123-456-7890\"", "CARD = \"4111 1111 1111 1111\"", "UUID = \"00000000-0000-0000-0000-000000000000\"", "ZEROS = 1111111111", ""]
+    md = os.path.join(root, "mockzoo")
+    os.makedirs(md)
+    with open(os.path.join(md, "names.py"), "w") as f:
+        f.write("\n".join(zoo) + "\n")
+    with open(os.path.join(md, "plain.py"), "w") as f:
+        f.write(good["good1.py"])
+    for args in (["check", "--select", "mockdata", "."], ["check", "."], ["check", "--select", "complexity,deadcode,clones,deps,mockdata", "."],
+                 ["check", "--select", "mockdata", "--quiet", "."], ["analyze", "--json", "--no-open", "--select", "complexity,deadcode", "."]):
+        r = run_cli(args, md, timeout=60)
+        stats["mock_runs"] += 1
+        check_run("`pyscn %s` on the identifier/string zoo" % " ".join(args), r[0], r[1], r[2], r[3], sum(len(x) for x in zoo), {"kind": "mockzoo", "args": args, "names_head": zoo[:40]})
     # ----- every format is written for a project with a bad file
     fd = make_project("formats", {"zz_bad.py": b"def f(:\n"})
     for fmt in ("--json", "--yaml", "--csv", "--html"):
@@ -622,7 +654,7 @@ def main(tier):
                 break
     ck.samples = [{"label": l, "content_head": c[:60].decode("latin-1")} for l, c in bads[:6]]
     ck.cov.update({
-        "evaluations": stats["mixed_runs"] + stats["alone_runs"] + stats["role_runs"] + stats["surface_runs"] + stats["wide_runs"] + stats["format_runs"] + stats["nesting_runs"] + stats["depth_graphs"],
+        "evaluations": stats["mixed_runs"] + stats["alone_runs"] + stats["role_runs"] + stats["surface_runs"] + stats["wide_runs"] + stats["mock_runs"] + stats["format_runs"] + stats["nesting_runs"] + stats["depth_graphs"],
         "distinct_nontrivial": stats["bad_inputs"],
         "rule": "malformed stream (syntax errors, truncations, bit flips, binary, encodings, BOM, CR/CRLF, very long line, deep parentheses) each "
                 "analysed alone and mixed into a project of 5 good files (all analyses), report sections of the good files compared with the "
